@@ -75,7 +75,7 @@ Definition run (fields : list str) : list str :=
         [[bool_ch (if nd kind =? 0 then wf_src p else if nd kind =? 2 then wf_src p else wf_simple p)];
          [bool_ch (match iparse p with Some _ => true | None => false end)];
          [bool_ch (match cparse p with Some _ => true | None => false end)];
-         [bool_ch (wf_doc p)]]
+         [bool_ch (wf_src p)]]
       | _ => [[63]]
       end
     else [[63]]
